@@ -288,7 +288,8 @@ def download_templates(ctx):
                 bad = 'transfer state after initiate %s' % dict((k, v) for k, v in st.items() if 'Blk' in k or 'Buf' in k)
         _rep(ctx, P, 'RF13-download', f, 'initiate block download command %02Xh' % cmd, bad)
     f = 'COSdoDownloadBlock'
-    for (cnt, seq, last) in ((0, 1, 0), (5, 6, 0), (5, 6, 1), (126, 127, 0), (5, 7, 0), (5, 5, 0), (5, 127, 0), (5, 9, 1)):
+    for (cnt, seq, last) in ((0, 1, 0), (5, 6, 0), (5, 6, 1), (126, 127, 0), (126, 127, 1), (0, 1, 1), (125, 126, 0), (125, 126, 1),
+                             (5, 7, 0), (5, 5, 0), (5, 127, 0), (5, 9, 1)):
         cmd = seq | (0x80 if last else 0)
         trs = _run(m, f, {'srv->Frm->Data[0]': cmd, 'srv->Blk.SegCnt': cnt, 'srv->Blk.Len': 500, 'srv->Buf.Num': cnt * 7,
                           'srv->Buf.Start': 0x5000, 'call:COObjWrBufCont': NONE}, filt=FRM)
@@ -310,12 +311,26 @@ def download_templates(ctx):
                     bad = 'block acknowledge %s returns %s, required A2h ackseq=%d blksize=%d' % (dict((k, v) for k, v in fr.items() if k in (0, 1, 2)), t.ret, seq, SEG)
                 elif st.get('srv->Blk.State') != m.enum('BLK_DNWAIT'):
                     bad = 'state after the acknowledge %s' % st.get('srv->Blk.State')
+                else:
+                    # a completed block that is not the last one is flushed to the object in full and the buffer
+                    # rewound; the block that carries the last segment is flushed by the end handler (which deducts
+                    # the unused bytes of the last segment) - flushing it here writes the fill bytes into the object
+                    wr = [c for c in t.calls() if c[1] == 'COObjWrBufCont']
+                    if last and wr:
+                        bad = 'the block with the last segment is flushed before the end request says how many of its ' \
+                              'bytes are valid (%s bytes written)' % [c[2][3] for c in wr]
+                    elif not last and ([c[2][3] for c in wr] != [(cnt + 1) * 7] or st.get('srv->Buf.Num') != 0
+                                       or st.get('srv->Buf.Cur') != 0x5000):
+                        bad = 'completed block: flushed %s bytes (required %d), buffer fill level afterwards %s' % (
+                            [c[2][3] for c in wr], (cnt + 1) * 7, st.get('srv->Buf.Num'))
             elif nak:
                 if fr.get(0) != 0xA2 or fr.get(1) != cnt or t.ret != NONE:
                     bad = 'retransmission request %s, required A2h ackseq=%d' % (dict((k, v) for k, v in fr.items() if k in (0, 1, 2)), cnt)
             else:
                 if t.ret != SIL or 0 in fr:
                     bad = 'segment inside a block answered (returns %s)' % t.ret
+                elif any(c[1] == 'COObjWrBufCont' for c in t.calls()):
+                    bad = 'segment inside a block flushes the buffer'
         _rep(ctx, P, 'RF13-download', f, site, bad)
     f = 'COSdoEndDownloadBlock'
     for n in (0, 3, 6):
